@@ -301,7 +301,7 @@ pub fn run(ctx: &Ctx) -> PropResult {
         let e2e = if idx % 10 == 0 { Some(path.as_path()) } else { None };
         judge_file(rec, rng, name, Some(&path.to_string_lossy()), &bytes, "corpus", if quick { 100 } else { 400 }, dref, e2e);
     }));
-    wls.push(Workload::cases("synthetic_files", ctx.n(400, 20_000), move |rec, idx, rng| {
+    wls.push(Workload::cases("synthetic_files", ctx.count(400, 20_000), move |rec, idx, rng| {
         let s = gen_synth(rng);
         let bytes = s.bytes();
         let name = format!("synthetic#{}", idx);
